@@ -67,6 +67,25 @@ def rationals(vals, bound=512):
     return out
 
 
+def operator_bc(model, name, dir_, I, prm):
+    """the boundary state as the space operator obtains it (dispatch by name, direction and parameters inside fvm.rhs): a 3-cell
+    problem with the interior state next to the side under test, other states elsewhere, an imposed state on the opposite side;
+    read back from the face arrays of the operator"""
+    m = fd.uniform(3, length=1.0)
+    other = [I[0] * 1.7, -0.4 * I[1] + 0.1, I[2] * 0.6]
+    cells = [I, other, other] if dir_ == -1 else [other, other, I]
+    prim = [np.array([float(cl[k]) for cl in cells]) for k in range(3)]
+    side = dict(prm, type=name)
+    opp = {"type": "dirichlet", "prim": [float(x) for x in other]}
+    disc = fd._real_modeldisc.fvm(model, m, fd.recon("extrapol1"), numflux="centered",
+                                  bcL=side if dir_ == -1 else opp, bcR=opp if dir_ == -1 else side)
+    f = fd.field.fdata(model, m, model.prim2cons(prim))
+    disc.rhs(f)
+    if dir_ == -1:
+        return [np.array([disc.pL[k][0]]) for k in range(3)], tuple(float(disc.pR[k][0]) for k in range(3))
+    return [np.array([disc.pR[k][m.ncell]]) for k in range(3)], tuple(float(disc.pL[k][m.ncell]) for k in range(3))
+
+
 def euler1d_records(rnd, tier):
     recs = []
     names = ["insub", "insub_cbc", "insup", "outsub", "outsub_prim", "outsub_qtot", "outsub_rh", "outsub_nrcbc", "outsup", "sym", "dirichlet"]
@@ -119,7 +138,15 @@ def euler1d_records(rnd, tier):
                         prm.setdefault(k_, v_)
                 try:
                     with np.errstate(all="ignore"):
-                        out = primed_bc(model, name, dir_, [np.array([x]) for x in I], dict(prm, type=name))
+                        if c % 4 == 2 and not exact:
+                            # one case in four: through the operator (the interior state is the one the operator presents: the
+                            # round trip of I through the conservative variables)
+                            out, I = operator_bc(model, name, dir_, I, prm)
+                            rho, u, p = I
+                            a = math.sqrt(gam * p / rho)
+                            ptI, rtI = q("ptot", gam, I), q("rttot", gam, I)
+                        else:
+                            out = primed_bc(model, name, dir_, [np.array([x]) for x in I], dict(prm, type=name))
                     B = tuple(float(np.ravel(x)[0]) for x in out)
                 except Exception as ex:
                     recs.append(dict(kind="raised", what="%s: %s" % (type(ex).__name__, str(ex)[:100]), model="euler1d", bc=name))
